@@ -69,6 +69,12 @@ func parseCase(id interface{}, c rawCase) map[string]interface{} {
 			return res
 		}
 		res["size"] = uint64(t.Size())
+		if getInt(c, "scribble") == 1 {
+			// the caller recycles its read buffer for the next object before walking this tree
+			for i := range data {
+				data[i] = 0xAA
+			}
+		}
 		it := t.Iter()
 		var ents []interface{}
 		n := 0
